@@ -338,10 +338,17 @@ def run_five(case, res, prop, ref, on_sim=None):
                 res.violation(VAL, "register-file-at-step", "after step %d registers (reg, real, reference) differ: %s" % (t, diff[:4]), case)
                 return None
         # ---- output and stores: in golden order, exactly once
-        if sim.state.output not in ref_out_prefixes:
-            res.violation(VAL, "output-log", "after step %d output %r is not a prefix of the golden output events %r" % (t, sim.state.output[-60:], ref.out[-60:]), case)
+        o = sim.state.output
+        if o not in ref_out_prefixes and not (ref.timeout and o.startswith(ref.out)):
+            # (if the golden run stopped at its instruction bound, a pipeline that is merely FASTER than the
+            # documented schedule - a C07 matter - may already be past it: then the golden output is a prefix of the real one)
+            res.violation(VAL, "output-log", "after step %d output %r is not a prefix of the golden output events %r" % (t, o[-60:], ref.out[-60:]), case)
             return None
-        if slog.log != ref_stores[: len(slog.log)]:
+        if ref.timeout and len(slog.log) > len(ref_stores):
+            if slog.log[: len(ref_stores)] != ref_stores:
+                res.violation(VAL, "store-log", "after step %d the first %d stores differ from the golden store events" % (t, len(ref_stores)), case)
+                return None
+        elif slog.log != ref_stores[: len(slog.log)]:
             res.violation(VAL, "store-log", "after step %d store log %s is not a prefix of the golden store events %s" % (t, slog.log[-3:], ref_stores[max(0, len(slog.log) - 3) : len(slog.log)]), case)
             return None
         if ret is not (not sim.is_done()):
